@@ -43,7 +43,7 @@ check("C08", "exploration",
 # properties deliberately not claimed (reason); anything else missing from CHECKS is listed as "not built yet"
 NOT_APPLICABLE = {}
 
-HOOK_COMMITS = ["45bc492", "e36cf10", "3319613", "69852e4", "f4a53ae", "0212cac", "4b47353", "ce43167"]
+HOOK_COMMITS = ["45bc492", "e36cf10", "3319613", "69852e4", "f4a53ae", "1c4db3c", "0212cac", "4b47353", "ce43167"]
 
 check("C14", "model_checking",
       "CircularBuf: BFS to closure over {write,take,close} histories for every capacity<=6 units x write size 1..3 x read size, "
@@ -364,3 +364,24 @@ check("C11", "exploration",
            "three helpers; the shard the copies are routed to must reject with the duplicate-report error and the query must not "
            "complete, while duplicate-free inputs must not be rejected for duplication.",
       note="3 reports, <= 3 shards; routing targets are fixed by VERIF_SEED (ciphertext bytes).")
+
+check("C20", "exploration",
+      "route table discovery on the real MPC-server and shard-server routers through IpaHttpServer::handle_req: every path of <= 5 "
+      "segments over the segment alphabet harvested from the http_serde AXUM_PATH constants (plus a valid and a malformed query id "
+      "and a step segment), with and without trailing slash x GET/POST/PUT/DELETE x {empty, JSON} body, once with a ClientIdentity "
+      "extension and once without; every mounted route is classified by the documented tables (unlisted routes must require "
+      "identity). Oracle: peer routes answer 401 without identity whatever the parameters, report-collector routes never 401, no route "
+      "exists only for anonymous callers. Live loopback matrix: {TLS on, off} x {inherited listener, self-bound port} x identity "
+      "header {absent, A, B, C} x {step, prepare, echo}, client without certificate: with TLS the header has no effect (401), "
+      "without TLS it is honoured. distinct_nontrivial = mounted (method, path) pairs + live requests.",
+      [{"name": "auth", "config": "A", "test": "net::server::verif::c20::run", "timeout": {"quick": 900, "thorough": 3600},
+        "require": {"any": {"mounted_routes_mpc": 9, "mounted_routes_shard": 5, "live_requests": 40}}}],
+      assumptions=["routes reachable only through segments absent from the http_serde path constants are not probed",
+                   "client-certificate identities (helper i with a header claiming j) are covered by the repository's own e2e tests, not here"],
+      exhaustive=True, engine="E5 domain",
+      technique="exhaustive enumeration of the bounded path space x methods against the real axum routers; exhaustive configuration "
+                "matrix of live loopback servers",
+      text="Every path up to five segments over the route-segment alphabet is requested on both real servers with and without a peer "
+           "identity, so that every mounted route is found and checked to refuse anonymous callers when it carries peer traffic; the "
+           "TLS / header matrix is run against live loopback listeners started both ways.",
+      note="Path depth 5; one request handler that accepts everything; loopback only.")
